@@ -149,6 +149,7 @@ let gen_quirk_table : (string * (quirks -> bool -> quirks)) list = [
   "gen_tuple_missing", (fun q b -> { q with qg_tuple_missing = b });
   "gen_nullable_kinded_null", (fun q b -> { q with qg_nullable_kinded_null = b });
   "gen_stringprefix_split", (fun q b -> { q with qg_stringprefix_split = b });
+  "gen_map_kv_dup", (fun q b -> { q with qg_map_kv_dup = b });
 ]
 
 (* ------------------------------------------------------------------ model observations *)
@@ -341,14 +342,17 @@ let strip_r (s : string) : string =
 
 let id_proj (s : string) = s
 
-type case = { id : string; op : string; t : ty; d : dm; lv : level; obs : string }
+type case = { id : string; op : string; t : ty; d : dm; lv : level; route : string; obs : string }
+
+(* the key+value defect of generated typed maps exists on the key+value route only *)
+let gen_q (c : case) (q : quirks) : quirks = if c.route = "kv" then q else { q with qg_map_kv_dup = false }
 
 type pc = Case of case | Bad of string * string
 
 let parse_case (line : string) : pc option =
   match split_tab line with
-  | id :: op :: stext :: lvl :: _route :: vtext :: obs :: _ ->
-    (try Some (Case { id; op; t = ty_of_string stext; d = dm_of_string vtext; lv = level_of lvl; obs })
+  | id :: op :: stext :: lvl :: route :: vtext :: obs :: _ ->
+    (try Some (Case { id; op; t = ty_of_string stext; d = dm_of_string vtext; lv = level_of lvl; route; obs })
      with Failure m -> Some (Bad (id, m)))
   | _ -> None
 
@@ -384,7 +388,7 @@ let gather (c : case) : unit =
      | None -> ());
     (match c.op, (if c.op = "buildg" then Some ("", c.obs) else split_obs c.obs) with
      | ("both" | "buildg"), Some (_, og) when gen_supported c.t ->
-       let f q = outcome (build_obs Gen q c.lv c.t c.d) in
+       let f q = outcome (build_obs Gen (gen_q c q) c.lv c.t c.d) in
        let base = f qoff in
        List.iter (fun (name, set) ->
            let a = f (set qoff true) in
@@ -434,7 +438,7 @@ let process (q0 : quirks) (c : case) : unit =
            | _ -> let (m, v) = judge q0 quirk_table f id_proj obs want in out m v))
   | "valg" ->
     (* C08 on freshly generated code *)
-    let f q = val_obs Gen q t d in
+    let f q = val_obs Gen (gen_q c q) t d in
     if obs = "nobuild" then out (f q0) "fail:gen_does_not_compile"
     else if not (wf t && gen_supported t) then out (f q0) "skip"
     else (match spec_val t d with
@@ -442,7 +446,7 @@ let process (q0 : quirks) (c : case) : unit =
         | Some want -> let (m, v) = judge_gen q0 f id_proj obs want in out m v)
   | "buildg" ->
     (* C09 on freshly generated code *)
-    let f q = build_obs Gen q lv t d in
+    let f q = build_obs Gen (gen_q c q) lv t d in
     if obs = "nobuild" then out (f q0) "fail:gen_does_not_compile"
     else if not (wf t && gen_supported t) then out (f q0) "skip"
     else let (m, v) = judge_gen q0 f strip_r obs (spec_build lv t d) in out m v
@@ -453,7 +457,7 @@ let process (q0 : quirks) (c : case) : unit =
     else let (m, v) = judge q0 quirk_table f strip_r obs (spec_build lv t d) in out m v
   | "both" ->
     let fb q = build_obs Bind q lv t d in
-    let fg q = build_obs Gen q lv t d in
+    let fg q = build_obs Gen (gen_q c q) lv t d in
     (* a type-level tree can denote a struct value that has no tuple / stringjoin representation (an
        absent field before a present one; a delimiter inside a field): its representation view is
        unspecified and the engines show different things — out of scope for the comparison *)
